@@ -43,22 +43,6 @@ def tagBinds (D : Data) (x : Option VertexId) (l : List (Name × Name)) : List (
 def outBinds (D : Data) (x : Option VertexId) (l : List (Name × Name)) : List (Name × Value) :=
   l.map fun p => (p.1, D.propOpt x p.2)
 
-theorem bindDirs_eq (D : Data) (v : Option VertexId) (n : Name) (dirs : List Dir) (a : Asg) :
-    dirs.foldl (fun (acc : Asg) d =>
-      match d with
-      | .tag t => { acc with tags := acc.tags ++ [(t, match v with
-          | some _ => Tagged.some (D.propOpt v n)
-          | none => Tagged.nonexistent)] }
-      | .output o => { acc with outs := acc.outs ++ [(o, D.propOpt v n)] }
-      | .filter _ _ => acc) a =
-    ⟨a.tags ++ tagBinds D v (dirTags n dirs), a.outs ++ outBinds D v (dirOuts n dirs)⟩ := by
-  induction dirs generalizing a with
-  | nil => simp [tagBinds, outBinds, dirTags, dirOuts]
-  | cons d rest ih =>
-    rw [List.foldl_cons, ih]
-    cases d <;> simp [tagBinds, outBinds, dirTags, dirOuts, tagOf, List.filterMap_cons]
-    cases v <;> rfl
-
 theorem bindProps_eq (env : SpecEnv) (v : Option VertexId) (fields : List QField) (a : Asg) :
     bindProps env v fields a =
       ⟨a.tags ++ tagBinds env.data v (tagPairs fields), a.outs ++ outBinds env.data v (outPairs fields)⟩ := by
@@ -68,7 +52,19 @@ theorem bindProps_eq (env : SpecEnv) (v : Option VertexId) (fields : List QField
     cases f with
     | prop n dirs =>
       simp only [bindProps]
-      rw [bindDirs_eq, ih]
+      generalize hF : (fun (acc : Asg) (d : Dir) => _) = F
+      have key : ∀ (a : Asg), dirs.foldl F a =
+          ⟨a.tags ++ tagBinds env.data v (dirTags n dirs),
+            a.outs ++ outBinds env.data v (dirOuts n dirs)⟩ := by
+        subst hF
+        induction dirs with
+        | nil => intro a; simp [tagBinds, outBinds, dirTags, dirOuts]
+        | cons d rest ih2 =>
+          intro a
+          rw [List.foldl_cons, ih2]
+          cases d <;> simp [tagBinds, outBinds, dirTags, dirOuts, tagOf]
+          cases v <;> rfl
+      rw [key, ih]
       simp [tagBinds, outBinds, tagPairs, outPairs, List.append_assoc]
     | edge n ps k c =>
       simp only [bindProps, tagPairs, outPairs]
@@ -110,20 +106,17 @@ theorem holdAll_append (env : SpecEnv) (a : Asg) (v : Option VertexId)
     simp only [List.cons_append, holdAll]
     rcases filterHolds env a v (env.data.propOpt v n) op arg with (_ | _) | _ | _ <;> simp [ih]
 
-theorem filtersHold_eq (env : SpecEnv) (a : Asg) (v : Option VertexId) (n : Name) (dirs : List Dir) :
-    filtersHold env a v (env.data.propOpt v n)
-        (dirs.filterMap fun d => match d with | .filter op arg => some (op, arg) | _ => none) =
-      holdAll env a v (dirFilters n dirs) := by
-  induction dirs with
+theorem filtersHold_map (env : SpecEnv) (a : Asg) (v : Option VertexId) (n : Name)
+    (fs : List (FOp × QArg)) :
+    filtersHold env a v (env.data.propOpt v n) fs =
+      holdAll env a v (fs.map fun p => (n, p.1, p.2)) := by
+  induction fs with
   | nil => rfl
-  | cons d rest ih =>
-    cases d with
-    | filter op arg =>
-      simp only [List.filterMap_cons, dirFilters, filtersHold, holdAll]
-      rcases filterHolds env a v (env.data.propOpt v n) op arg with (_ | _) | _ | _ <;> simp
-      exact ih
-    | tag t => simpa [List.filterMap_cons, dirFilters] using ih
-    | output o => simpa [List.filterMap_cons, dirFilters] using ih
+  | cons p rest ih =>
+    obtain ⟨op, arg⟩ := p
+    simp only [List.map_cons, filtersHold, holdAll]
+    rcases filterHolds env a v (env.data.propOpt v n) op arg with (_ | _) | _ | _ <;> simp
+    exact ih
 
 theorem propFiltersHold_eq (env : SpecEnv) (a : Asg) (v : Option VertexId) (fields : List QField) :
     propFiltersHold env a v fields = holdAll env a v (specFilters fields) := by
@@ -132,7 +125,15 @@ theorem propFiltersHold_eq (env : SpecEnv) (a : Asg) (v : Option VertexId) (fiel
   | cons f rest ih =>
     cases f with
     | prop n dirs =>
-      simp only [propFiltersHold, specFilters, holdAll_append, filtersHold_eq, ih]
+      simp only [propFiltersHold, specFilters, holdAll_append, ih]
+      rw [filtersHold_map]
+      generalize hl : List.filterMap _ dirs = l
+      have hmap : l.map (fun p => (n, p.1, p.2)) = dirFilters n dirs := by
+        subst hl
+        induction dirs with
+        | nil => rfl
+        | cons d ds ihd => cases d <;> simp_all [dirFilters, List.filterMap_cons]
+      rw [hmap]
       rcases holdAll env a v (dirFilters n dirs) with (_ | _) | _ | _ <;> rfl
     | edge n ps k c => simpa [propFiltersHold, specFilters] using ih
 
@@ -232,7 +233,7 @@ theorem evalEdge_optional_toOption (env : SpecEnv) (fuel : Nat) (owners : List N
       else flatMapO (fun n => (evalNode env fuel child (some n) a).toOption)
           (specNbrs env owners name params v) := by
   simp only [evalEdge, specNbrs]
-  split <;> simp [toOption_flatMapR]
+  split <;> simp_all [toOption_flatMapR]
 
 theorem evalEdge_recurse_toOption (env : SpecEnv) (fuel : Nat) (owners : List Name) (name : Name)
     (params : Params) (d : Nat) (child : QNode) (v : Option VertexId) (a : Asg) :
